@@ -137,8 +137,12 @@ static inline void all_checks(void) {
   for (int b = 0; b < H_NN; b++) {       /* push's "was non-empty" result */
     if (!h_idone(b)) continue;
     int may = 0, def = 0;
-    for (int a = 0; a < H_NN; a++) if (a != b) { may |= h_may_present(a, h_icall(b), h_iret(b)); def |= h_def_present(a, h_icall(b), h_iret(b)); }
-    if (h_iflag(b)) rt_assert(may, "push reports non-empty only if another node can be on the stack");
+    /* "non-empty" means some node a lies BELOW b once b is pushed: a can have been on the stack during the push, and (LIFO) a is not removed
+     * strictly before b is (same pop_all = same interval, which is not strictly before) */
+    for (int a = 0; a < H_NN; a++) if (a != b) {
+      may |= h_may_present(a, h_icall(b), h_iret(b)) && !(h_removed(a) && h_removed(b) && h_vret(a) < h_vcall(b));
+      def |= h_def_present(a, h_icall(b), h_iret(b)); }
+    if (h_iflag(b)) rt_assert(may, "push reports non-empty only if another node can be below it on the stack");
     else rt_assert(!def, "push reports empty only if no other node is definitely on the stack");
   }
 }
